@@ -82,7 +82,7 @@ pub fn bind_next(
     };
 
     match raw_lhs {
-        RawExpr::Var{name} => {
+        RawExpr::Var{name, loc} => {
             bind_next_name(
                 scopes,
                 names_in_binding,
@@ -510,7 +510,7 @@ fn bind_object(
                 }
 
                 let prop_name =
-                    if let RawExpr::Var{name} = &raw_expr {
+                    if let RawExpr::Var{name, ..} = &raw_expr {
                         name.clone()
                     } else {
                         return new_loc_err(Error::ObjectPropShorthandNotVar);
@@ -601,7 +601,7 @@ fn bind_object_prop(
     // the shorthand `{_}`); a property that is itself named `_` can still be
     // bound to another name, as in `{"_": x}`.
     if prop_name.0 == "_" {
-        if let (RawExpr::Var{name}, _) = lhs {
+        if let (RawExpr::Var{name, ..}, _) = lhs {
             if name == "_" {
                 return Ok(());
             }
